@@ -3,3 +3,6 @@ pub mod dlrt;
 pub mod dltask;
 pub mod vote;
 pub mod store;
+pub mod codec;
+pub mod chan;
+pub mod recon;
